@@ -782,6 +782,17 @@ class LockAnalysis:
         if cond["k"] == "UnaryOperator" and cond["op"] == "!":
             self._refine_expr(f.children(cond)[0], f_state, t_state)
             return
+        if cond["k"] == "BinaryOperator" and cond.get("op") in ("&&", "||"):
+            # the block that ends an `a && b` / `a || b` chain carries the whole expression as its condition: on the edge
+            # where the conjunction is TRUE every operand is true (disjunction FALSE: every operand false); the other edge
+            # says nothing definite about one operand
+            scratch = {}
+            for sub_ in f.children(cond):
+                if cond["op"] == "&&":
+                    self._refine_expr(sub_, t_state, scratch)
+                else:
+                    self._refine_expr(sub_, scratch, f_state)
+            return
         if cond["k"] == "CXXMemberCallExpr":
             obj = f.s(cond["obj"])
             if obj is not None and is_mutex_type(obj.get("t", "")) and cond["callee"]["name"].startswith("try_lock"):
